@@ -1,2 +1,2 @@
-import SparkxVerif.Drv.C09
-def main : IO Unit := SparkxVerif.Proto.run SparkxVerif.Drv.C09.handle
+import SparkxVerif.Drv.C09Gen
+def main : IO Unit := SparkxVerif.Proto.run SparkxVerif.Drv.C09Gen.handle
